@@ -192,7 +192,7 @@ def eval_case(case):
 def parts(tier):
     t = tier == 'thorough'
     return [
-        Part('small', eval_case, strategy=lambda: strategy(14), examples=40000 if t else 3000),
-        Part('large', eval_case, strategy=lambda: strategy(40), examples=6000 if t else 320),
-        Part('wide', eval_case, strategy=lambda: strategy(14, wide=True), examples=40000 if t else 3000),
+        Part('small', eval_case, strategy=lambda: strategy(14), examples=120000 if t else 3000),
+        Part('large', eval_case, strategy=lambda: strategy(40), examples=18000 if t else 320),
+        Part('wide', eval_case, strategy=lambda: strategy(14, wide=True), examples=120000 if t else 3000),
     ]
